@@ -29,6 +29,34 @@ def arm_callees(f, cov, v):
     return out
 
 
+_REL = {}
+
+
+def releasers(facts):
+    """functions of the VM runtime that give references back: they reach (<= 3 calls, inside runtime::vm) a removal
+    from the closure / heap storages or the heap's release function.  By role, not by name."""
+    key = id(facts)
+    if key in _REL:
+        return _REL[key]
+    lang = facts.crate(roles.LANG)
+    fns = {f.path: f for f in lang.fns if "::runtime::vm" in f.path and f.kind != "promoted" and "::test" not in f.path}
+    base = set()
+    for pth, f in fns.items():
+        for _, t in f.calls():
+            c = callee(t) or ""
+            if (c.split("::")[-1] == "remove" and "SlotMap" in c) or c.endswith("heap::heap_release") or c.endswith("heap::heap_release_closure"):
+                base.add(f.root)
+    reach = set(base)
+    for _ in range(3):
+        for pth, f in fns.items():
+            if f.root in reach:
+                continue
+            if any((callee(t) or "") in reach for _, t in f.calls()):
+                reach.add(f.root)
+    _REL[key] = reach
+    return reach
+
+
 def rule_return_arms(ck, facts):
     R = "C12.return"
     ck.rule(R, "all Return* arms of the VM dispatch loop call the same set of release_* functions of the machine before leaving the frame")
@@ -37,11 +65,12 @@ def rule_return_arms(ck, facts):
     if vd is None:
         return
     f = vd.fn
+    RELS = releasers(facts)
     rets = [v for v in vd.names if v.startswith("Return")]
     ck.floor(R, "return_arms", len(rets), 2)
     rel = {}
     for v in rets:
-        rel[v] = sorted({c.split("::")[-1] for c in arm_callees(f, vd, v) if "Machine::release" in c or c.split("::")[-1].startswith("release_")})
+        rel[v] = sorted({c.split("::")[-1] for c in arm_callees(f, vd, v) if c in RELS and c != f.path})
     union = sorted({x for xs in rel.values() for x in xs})
     ck.floor(R, "release_functions_called_on_return", len(union), 2)
     for v in rets:
@@ -59,14 +88,22 @@ def rule_creation_registers(ck, facts):
     if vd is None:
         return
     f = vd.fn
-    names = f.dbg_names()
-    lists = {l for l, n in names.items() if n in ("local_closures", "local_heap_closures")}
+    # the frame's release lists: locals of the dispatch function that are vectors of closure / heap handles
+    lists = {l for l in range(len(f.d.get("locals", []))) if f.local_ty(l).startswith("std::vec::Vec<") and ("ClosureIdx" in f.local_ty(l) or "DefaultKey" in f.local_ty(l) or "HeapIdx" in f.local_ty(l))}
+    lang = facts.crate(roles.LANG)
+    CREATORS = set()
+    for g in lang.fns:
+        if "::runtime::vm" in g.path and g.kind == "assoc" and "::test" not in g.path and g.path != f.path:
+            rt = (g.d.get("locals") or [""])[0]
+            makes = any((callee(t) or "").endswith("Closure::new") or ((callee(t) or "").split("::")[-1] == "insert" and "SlotMap" in (callee(t) or "")) for _, t in g.calls())
+            if makes and ("ClosureIdx" in rt or "DefaultKey" in rt or "HeapIdx" in rt):
+                CREATORS.add(g.path)
     ck.require(R, len(lists) >= 2, "anchor|release-lists", "frame release lists not found among the dispatch function's locals")
     n = 0
     for v in sorted(vd.primary_handled()):
         cs = arm_callees(f, vd, v)
         # role: machine methods that allocate a closure object (they reach vm::Closure::new)
-        creates = [c for c in cs if c.rsplit("::", 1)[-1].startswith("allocate_") and "closure" in c.rsplit("::", 1)[-1]]
+        creates = [c for c in cs if c in CREATORS]
         if not creates:
             continue
         n += 1
